@@ -1,6 +1,7 @@
 //@unit mean_abs_dev
 //@include head.rs
 //@import sma.rs.tpl
+//@export-begin
 
 //@extract src/methods/mean_abs_dev.rs struct:MeanAbsDev
 //@end
@@ -93,5 +94,6 @@ impl Method for CCI {
 //@extract src/methods/cci.rs impl[Method for CCI]::next
 //@end
 }
+//@export-end
 } // verus!
 fn main() {}
